@@ -1,19 +1,10 @@
-"""Registry of checks: which harness parts decide which property."""
-
-def part(name, variant, sources, **kw):
-    d = {"name": name, "variant": variant, "sources": sources}
-    d.update(kw)
-    return d
-
-CHECKS = {
-    "C18": {
-        "level": "exploration",
-        "parts": [part("c18_metric", "plain", ["c18_metric.cpp"])],
-        "rule": "all ordered pairs of a finite alphabet per value type (scalar, periodic scalar through real colvar objects "
-                "with 6 period/wrapAround settings, 3-vector, 26(+4) unit vectors, 24x2+6 quaternions, generic vectors of "
-                "length 1-3) x lambda in {0,1/4,1/2,3/4,1}; a case is distinct by (type,a,b); all are non-trivial "
-                "(each is compared against an independent reference metric)",
-        "assumptions": ["finite alphabet of reals; nothing is claimed for values outside it",
-                        "antipodal unit vectors and quaternions at the cut locus are exempt from the derivative clause only"],
-    },
-}
+"""Registry of checks: one module per property under lib/checks/ (SPEC = how to run it, META = what is claimed)."""
+import importlib, os, sys
+_d = os.path.join(os.path.dirname(os.path.abspath(__file__)), "checks")
+sys.path.insert(0, os.path.dirname(os.path.abspath(__file__)))
+CHECKS, METAS = {}, {}
+for f in sorted(os.listdir(_d)):
+    if f.startswith("C") and f.endswith(".py"):
+        m = importlib.import_module("checks." + f[:-3])
+        CHECKS[f[:-3]] = m.SPEC
+        METAS[f[:-3]] = m.META
